@@ -435,6 +435,41 @@ def check_typed_copy(core, v, level, rec, rng):
             rec.violation('typed-copy-raised:%s' % type(e).__name__, case, {'exc': repr(e)[:160]})
 
 
+def check_children_iterables(core, v, level, rec, rng):
+    """`element.children = <iterable>` holds the children the iterable yields, whatever kind of iterable it is (list, tuple,
+    generator, iterator): same encoding as adding them one by one"""
+    seg = 'PID' if tables.segments(v).get('PID') else sorted(s for s, r in tables.segments(v).items() if r)[0]
+    rows = [r for r in gen.usable_rows(v, seg) if r.kind == 'leaf' and r.datatype in ('ST', 'ID', 'IS', 'SI', 'NM')][:3]
+    if len(rows) < 2:
+        return
+
+    def fresh():
+        out = []
+        for k, r in enumerate(rows):
+            f = core.Field(r.name, version=v, validation_level=level)
+            f.value = gen.witness(v, r.datatype)
+            out.append(f)
+        return out
+    ref = core.Segment(seg, version=v, validation_level=level)
+    for f in fresh():
+        ref.add(f)
+    want = ref.to_er7()
+    for kind, mk in (('list', lambda fs: fs), ('tuple', tuple), ('generator', lambda fs: (f for f in fs)), ('iterator', iter),
+                     ('reversed-twice', lambda fs: reversed(fs[::-1]))):
+        case = {'kind': 'children-iterable', 'version': v, 'level': level, 'iterable': kind}
+        rec.evaluation(('children-iterable', v, level, kind))
+        try:
+            s = core.Segment(seg, version=v, validation_level=level)
+            s.children = mk(fresh())
+            got = s.to_er7()
+        except Exception as e:
+            rec.violation('children-iterable-raised:%s' % type(e).__name__, case, {'exc': repr(e)[:160]})
+            continue
+        rec.count('children_iterables_compared')
+        if got != want:
+            rec.violation('children-assigned-from-an-iterable-differ', case, {'encoded': got, 'expected': want})
+
+
 def hooks_ec(ec):
     return ''.join(ec[k] for k in ('FIELD', 'COMPONENT', 'SUBCOMPONENT', 'REPETITION', 'ESCAPE')) if ec else 'std'
 
@@ -447,6 +482,8 @@ def run_groupcopy(spec, rec):
         ec = None if i % 2 == 0 else gen.delimiter_set(rng, v, with_truncation=False)
         check_group_copy(core, v, 1 + i % 3 % 2, ec, ('proxy', 'element', 'text', 'index')[i % 4], rec, rng,
                          zdst=(i % 5 == 2))
+        if i % 6 == 1:
+            check_children_iterables(core, v, 1 + (i // 6) % 2, rec, rng)
         if i % 2 == 0:
             check_typed_copy(core, v, 1 + (i // 2) % 2, rec, rng)
         if i % 3 == 0:
@@ -463,6 +500,10 @@ def replay(case, rec):
         from hl7apy import core
         for k in range(8):
             check_group_copy_profile(core, case['version'], case['level'], case['how'], rec, gen.rng_for(k, 'replay'))
+        return
+    if case.get('kind') == 'children-iterable':
+        from hl7apy import core
+        check_children_iterables(core, case['version'], case['level'], rec, gen.rng_for(0, 'replay'))
         return
     if case.get('kind') == 'typed-copy':
         from hl7apy import core
